@@ -126,6 +126,19 @@ def build() -> Check:
                     a = e.data["kwargs"].get("attempt", "")
                     if not (a == "1" or (a.startswith("(op@") and a.endswith("step_details.attempt + 1)"))):
                         b2.append((f"check logger attempt = {a}", t))
+        # a poll that makes the call fail (check / strategy / serialisation raised) must leave a FAIL record: without it the
+        # condition stays STARTED/READY and is polled again by the next invocation
+        b5 = []
+        for t in traces:
+            if st == "PENDING" or t.outcome != "raise" or is_suspend(prog, t) or not user_events(t, "user"):
+                continue
+            cks = t.kinds("CKPT")
+            if any(x.data.get("outcome") not in ("ok", None) for x in cks):
+                continue  # the checkpoint pipeline itself failed (C06)
+            if not [x for x in cks if x.data.get("action") == "FAIL" and x.data.get("sync")]:
+                b5.append((f"the call raises {t.exc_class()} after a poll without a synchronous FAIL record", t))
+        if st != "PENDING":
+            ck.ob("R5.failed-poll-is-recorded", construct, not b5, (b5[0][0] + ": " + trace_sig(b5[0][1])) if b5 else "", cell=st)
         if st == "PENDING":
             ck.ob("R4.pending-suspends", construct, not b4, (b4[0][0] + ": " + trace_sig(b4[0][1])) if b4 else "", cell=st)
             continue
